@@ -100,6 +100,7 @@ struct lib {
 	FileName	name;
 	ArEntry		arent;
 	BPack(Bool)	rdOnly;
+	BPack(Bool)	wrMode;		/* opened by libWrite: header written at close */
 	BPack(Bool)	intLoaded;	/* Already loaded by interpreter? */
 	String		idName;		/* Name of initialiser */
 	FILE *		file;
